@@ -14,7 +14,7 @@ RULE = (
     "Random well-kinded pipelines (0..4 quick / 0..6 thorough operators from the shared table of ~130 operator forms, "
     "root = one source or merge/concat/zip/combine_latest/amb/catch/on_error_resume_next/fork_join/with_latest_from/defer "
     "over 1-3 sources) over cold/hot/synchronous logged virtual-time sources whose timelines may be non-conforming "
-    "(emit after terminal, terminate twice); optionally the probe raises at its k-th callback and/or one user callback "
+    "(emit after terminal, terminate twice) or whose subscribe function raises after arranging its emissions; optionally the probe raises at its k-th callback and/or one user callback "
     "slot is armed to raise at its k-th call. Oracle: every probe and every inner (window/group) probe trace matches "
     "N*(E|C)? with nothing after its own dispose. Non-trivial: (a source timeline is non-conforming, or a fault was "
     "actually raised) and the top probe saw >=1 notification. Distinct = distinct case JSON."
@@ -49,7 +49,8 @@ def _run(case):
         p.subscribe(o)
     except Tagged:
         pass  # probe's own exception propagating out of subscribe() is allowed
-    lab.run()
+    if not lab.inconclusive:
+        lab.run()
     while isinstance(lab.escaped, Tagged) and lab.escaped.tag.startswith("probe:"):
         # the probe's own exception escaped into the scheduler: allowed; keep draining
         lab.escaped = None
@@ -61,7 +62,8 @@ def _run(case):
         ok, msg = q.grammar_ok()
         if not ok:
             bad.append(msg)
-    faulted = bool(lab.injected) or bool(p.raised)
+    subfault = any(s.raise_in_subscribe and s.subs for s in lab.sources)
+    faulted = bool(lab.injected) or bool(p.raised) or subfault
     nonconf = any(_nonconforming(s["tl"]) for s in pc["root"]["srcs"])
     nontrivial = (nonconf or faulted) and len(p.events) >= 1
     cls = []
@@ -71,6 +73,8 @@ def _run(case):
         cls.append("callback-raised")
     if p.raised:
         cls.append("probe-raised")
+    if subfault:
+        cls.append("subscribe-raised-after-wiring")
     if len(lab.probes) > 1:
         cls.append("inner-probes")
     if bad:
@@ -96,7 +100,7 @@ def _install_arm(lab, slot_i, k):
 def _cases(max_ops):
     return st.fixed_dictionaries(
         {
-            "pipe": pipelines(max_ops=max_ops, conforming=False),
+            "pipe": pipelines(max_ops=max_ops, conforming=False, src_kinds=("cold", "cold", "sync", "hot", "hot", "faulty", "hotfaulty")),
             "probe_raise": st.one_of(st.none(), st.none(), st.lists(st.integers(0, 5), min_size=1, max_size=2)),
             "arm": st.one_of(st.none(), st.tuples(st.integers(0, 3), st.integers(0, 3)).map(list)),
             "inner": st.sampled_from(["now", "now", "late", "never"]),
